@@ -397,6 +397,55 @@ theorem example_end_to_end_null (fadd : Nat → Nat → Nat) (start : Nat) (w : 
 
 end ExampleClosed
 
+section Sentences
+open KV.Table KV.Score KV.State
+/-- the words of the out-state come from the scored word and the in-state -/
+theorem out_words_valid {ν : Type} (S : Search ν) (s : State) (w : Word) (V : Word → Prop) (hw : V w)
+    (hs : ∀ x ∈ s.words.take s.length, V x) :
+    ∀ x ∈ (fullScore S s w).2.words.take (fullScore S s w).2.length, V x := by
+  intro x hx
+  have hx' := List.mem_of_mem_take hx
+  simp only [fullScore, scoreExceptBackoff] at hx'
+  rcases List.mem_cons.mp hx' with e | e
+  · rw [e]; exact hw
+  · exact hs x (List.mem_of_mem_take e)
+
+/-- sequence scoring over the trie = sequence scoring over the table it represents -/
+theorem trie_scoreSeq (fval : Nat → Rat) (M : Trie) (T : Table) (rng : List Word → Node) (rep : Represents fval M T rng)
+    (hN : 2 ≤ T.order) : ∀ (ws : List Word) (s : State), (∀ w ∈ ws, w < M.bound) → (∀ x ∈ s.words.take s.length, x < M.bound) →
+      scoreSeq (search fval M) s ws = scoreSeq (tableSearch T) s ws := by
+  intro ws
+  induction ws with
+  | nil => intro s _ _; rfl
+  | cons w ws ih =>
+    intro s hws hs
+    have hw : w < M.bound := hws w (by simp)
+    have r := KV.C03Trie.trie_refines fval M T rng rep hN s w hw hs
+    simp only [scoreSeq]
+    rw [r.1, ← r.2.2.2.2]
+    have hout := out_words_valid (search fval M) s w (fun x => x < M.bound) hw hs
+    rw [ih _ (fun x hx => hws x (by simp [hx])) hout]
+
+/-- **trie_end_to_end_sentence** — whole sentences: left-to-right scoring of any word sequence from the null context over the
+memory the trie builder writes gives the sum of the ARPA back-off scores along the growing history (`specSeq`), for every
+well-formed model incl. those that need blanks -/
+theorem trie_end_to_end_sentence (fval : Nat → Rat) (fadd : Nat → Nat → Nat) (a : Arpa) (bound start : Nat)
+    (P B : List Word → Nat) (enc : ArpaEncW fval a bound P B) (ar : BlankArith fval fadd a P B)
+    (sm : ∀ st, visitAll (visitOrder (gramsOf a P B)) = .ok st →
+      SmallOK (genTable fadd a.order (visitOrder (gramsOf a P B)) st.blanks) bound a.order)
+    (ws : List Word) (hv : ∀ w ∈ ws, a.gram [w] ≠ none ∧ w < bound) :
+    ∃ M, buildTrie fadd a.order bound start (gramsOf a P B) = .ok M ∧
+      (scoreSeq (search fval M) nullContextState ws).1 = specSeq a [] ws := by
+  obtain ⟨b, hb, rep⟩ := trie_build_represents fval fadd a bound start P B enc ar sm
+  refine ⟨ofTable b.table bound a.order start, by simp [buildTrie, hb], ?_⟩
+  have hbd : (ofTable b.table bound a.order start).bound = bound :=
+    ofTable_bound _ bound a.order start (by have := enc.wf.order_ge; omega)
+  rw [trie_scoreSeq fval _ _ _ rep enc.wf.order_ge ws nullContextState
+    (fun w hw => by rw [hbd]; exact (hv w hw).2) (by simp [nullContextState])]
+  exact (KV.C01.scoreSeq_spec a enc.wf (fun _ => false) ws [] _ (KV.C01.stateFor_null a) (fun w hw => (hv w hw).1)).1
+
+end Sentences
+
 section ExamplePruned
 open KV.Table KV.Score
 /-- an SRI-pruned trigram model: `<unk>`=0 `<s>`=1 `</s>`=2 `a`=3 `b`=4 `c`=5; bigrams `<s> a`, `a b`; trigram `a b c` whose
